@@ -35,12 +35,15 @@ def plan(tier, seed):
         shards.append({"what": "pair2d", "shape": list(shp), "i": i})
     for i in range(len(ch2)):
         shards.append({"what": "bcast", "shape": list(shp), "i": i})
+    nw = 4 if tier == "quick" else 5
+    for i in range(len(compositions(nw))):
+        shards.append({"what": "whereout1d", "n": nw, "i": i})
     return {
         "shards": shards,
         "coverage": {
             "exhaustive": True,
             "bounds": {"pair_1d_n": n1, "triple_1d_n": n3, "pair_2d_shape": list(shp), "policies": POLICIES, "limits": [str(l) for l in LIMITS], "dtypes": DT},
-            "rule": "unify_chunks_expr for every pair of chunkings of a 1-D axis, every triple on a smaller axis, every pair of 2-D chunkings and every broadcast pattern (size-1 axis, missing leading axis, 0-d) x dtype pairs (i1/f8 byte ratios) x policy x limit: every non-broadcast operand ends on the common layout per index, under refine every operand's boundaries are a subset of the unified ones, under every policy no operand's largest block exceeds max(limit, its own largest block), and a+b / blockwise computes the NumPy value. Non-trivial = operands with different chunkings",
+            "rule": "(plus np.add(x, y, where=m, out=o) for every quadruple of chunkings of a short axis: out and the returned array equal NumPy) unify_chunks_expr for every pair of chunkings of a 1-D axis, every triple on a smaller axis, every pair of 2-D chunkings and every broadcast pattern (size-1 axis, missing leading axis, 0-d) x dtype pairs (i1/f8 byte ratios) x policy x limit: every non-broadcast operand ends on the common layout per index, under refine every operand's boundaries are a subset of the unified ones, under every policy no operand's largest block exceeds max(limit, its own largest block), and a+b / blockwise computes the NumPy value. Non-trivial = operands with different chunkings",
         },
         "assumptions": ["array.unify-chunks-limit None means unbounded (no growth clause to check)", "synchronous scheduler for the value check"],
     }
@@ -168,9 +171,57 @@ def _addall(*blocks):
     return r
 
 
+def _check_whereout(n, cx, cy, cw, co, policy, out):
+    """np.add(x, y, where=m, out=o) with four independently chunked operands:
+    the ufunc path unifies inputs, mask and out onto one layout."""
+    import dask_array as da
+
+    out.count("evaluations")
+    out.count("transitions")
+    a, b = np.arange(n) + 1.0, (np.arange(n) + 1.0) * 10
+    m = np.arange(n) % 2 == 0
+    o0 = np.full(n, -1.0)
+    case = {"what": "whereout", "n": n, "cx": list(cx), "cy": list(cy), "cw": list(cw), "co": list(co), "policy": policy}
+    desc = f"policy={policy}: da.add(x{cx}, y{cy}, where=m{cw}, out=o{co}) on length {n}"
+    want = np.add(a, b, where=m, out=o0.copy())
+    try:
+        with dask.config.set({"array.unify-chunks-policy": policy}):
+            x, y = da.from_array(a, chunks=(cx,)), da.from_array(b, chunks=(cy,))
+            mm, o = da.from_array(m, chunks=(cw,)), da.from_array(o0.copy(), chunks=(co,))
+            r = da.add(x, y, where=mm, out=o)
+            got = o.compute(scheduler="sync")
+            got_r = r.compute(scheduler="sync") if r is not o else got
+    except NotImplementedError:
+        out.count("refused")
+        return
+    except Exception as e:  # noqa: BLE001
+        return out.fail({"kind": "whereout-raise", "signature": f"whereout-raise:{type(e).__name__}", "case": case, "detail": desc + f" raised {type(e).__name__}: {str(e)[:200]}"})
+    out.count("accepted")
+    out.count("value_checks")
+    out.sadd("state_keys", hash(("wo", cx, cy, cw, co)))
+    if len({cx, cy, cw, co}) > 1:
+        out.count("nontrivial")
+        out.count("rechunked")
+    for what, g in (("out array", got), ("returned array", got_r)):
+        if np.shape(g) != want.shape or not np.array_equal(g, want):
+            return out.fail({"kind": "whereout-value", "signature": "whereout-value", "case": case, "detail": desc + f": {what} = {np.asarray(g).tolist()} != numpy {want.tolist()}"})
+    if tuple(o.chunks) != (tuple(co),) and sum(o.chunks[0]) != n:
+        return out.fail({"kind": "whereout-chunks", "signature": "whereout-chunks", "case": case, "detail": desc + f": out advertises chunks {o.chunks}"})
+
+
 def run_shard(shard):
     out = ShardOut()
     w = shard["what"]
+    if w == "whereout1d":
+        n = shard["n"]
+        chs = compositions(n)
+        cx = chs[shard["i"]]
+        for cy in chs:
+            for cw in chs:
+                for co in chs:
+                    for pol in POLICIES if cy == cx else ["auto"]:
+                        _check_whereout(n, cx, cy, cw, co, pol, out)
+        return out.result()
     if w == "pair1d":
         n = shard["n"]
         chs = compositions(n)
@@ -240,7 +291,15 @@ def vacuity(agg, plan):
     return v
 
 
+def _replay_whereout(case):
+    out = ShardOut()
+    _check_whereout(case["n"], tuple(case["cx"]), tuple(case["cy"]), tuple(case["cw"]), tuple(case["co"]), case["policy"], out)
+    return out.failures[0] if out.failures else None
+
+
 def replay(case):
+    if case.get("what") == "whereout":
+        return _replay_whereout(case)
     out = ShardOut()
     ops = []
     for k, o in enumerate(case["ops"]):
